@@ -82,6 +82,7 @@ Verdict(t) ==
   IF ~DistinctDirections(pl, X) THEN "OOD repeated-direction" ELSE
   IF ~Bounded(pl, X) THEN "OOD unbounded" ELSE
   LET V == HalfSpaceVertices(pl, X) IN
+  IF ~Compact(V, t.Q) THEN "OOD elongated" ELSE
   IF ~Separated(V, t.Q) THEN "OOD near-coincident-vertices" ELSE
   IF t.exc # "" THEN "REJECT Raised" ELSE
   IF t.mesh.exc # "" THEN "REJECT RaisedToTrimesh" ELSE
